@@ -1,7 +1,7 @@
 import IceProofs.AgentC20Accept
 import IceGen.T_Select
 /-!
-# Tie T for `ContactCandidates` and `HandleBindingRequest` of both selectors (selection.go)
+# Tie T for `ContactCandidates` and `HandleBindingRequest` of both selectors, `checkForAutomaticRenomination` (selection.go) and `shouldRenominate` (agent.go)
 
 Regenerated on every run in effect mode (`IceGen.T_Select`): the list of calls / field assignments in program order as a
 function of the values read.  The theorems give the list for ALL arguments, in the shape of the model's handlers
@@ -52,13 +52,17 @@ theorem contactCandidates_controlled (a : Agent) (now : Nat) (hc : a.controlling
   unfold Agent.contactCandidates
   rw [if_neg (by rw [hc]; exact Bool.false_ne_true), if_neg (by rw [hl]; exact Bool.false_ne_true)]
 
-/-- … controlling agent: selected → validate / keepalive; a listed nominated pair → nominate it again; no nominated pair → the
-best valid pair if both ends are nominatable (marked nominated and remembered, then nominated), else ping all -/
+/-- … controlling agent: selected → validate / keepalive / the automatic-renomination block (`Agent.autoRenom` =
+`keepAliveCandidatesForRenomination` under the same test `autoRenom && enableRenom`, then `checkForAutomaticRenomination`);
+a listed nominated pair → nominate it again; no nominated pair → the best valid pair if both ends are nominatable (marked
+nominated and remembered, then nominated), else ping all -/
 theorem contactCandidates_controlling (a : Agent) (now : Nat) (hc : a.controlling = true) :
     a.contactCandidates now =
       if a.selected.isSome then
         (if (a.validateSelected now).2.2 then
-          (((a.validateSelected now).1.keepalive now).1, (a.validateSelected now).2.1 ++ ((a.validateSelected now).1.keepalive now).2)
+          ((((a.validateSelected now).1.keepalive now).1.autoRenom now).1,
+           (a.validateSelected now).2.1 ++ ((a.validateSelected now).1.keepalive now).2 ++
+             (((a.validateSelected now).1.keepalive now).1.autoRenom now).2)
          else ((a.validateSelected now).1, (a.validateSelected now).2.1))
       else match a.nominatedPair.bind a.pairById with
         | some p => a.nominate now p
@@ -81,6 +85,84 @@ theorem contactCandidates_controlling (a : Agent) (now : Nat) (hc : a.controllin
   · rw [if_pos hs, if_pos hs]
   · rw [if_neg hs, if_neg hs]
     rfl
+
+/-! ## `checkForAutomaticRenomination` and `shouldRenominate` (automatic renomination) -/
+
+/-- **T: `controllingSelector.checkForAutomaticRenomination`**: the only effects of the function are
+`s.agent.lastRenominationTime = time.Now()` followed by `s.agent.renominateCandidate(bestPair.Local, bestPair.Remote)` (whose
+error is only logged), and they happen iff both options are on, the interval has passed since the selector started, no
+automatic renomination happened within the interval, a pair is selected, `findBestCandidatePair` found a pair, and
+`shouldRenominate(current, best)` -/
+theorem ctlAutoCheck_tie (autoRenom enableRenom : Bool) (sinceStart interval : Int64) (lastZero : Bool) (sinceLast : Int64)
+    (hasCurrent hasBest should : Bool) :
+    IceGen.controllingSelector_checkForAutomaticRenomination autoRenom enableRenom sinceStart interval lastZero sinceLast
+        hasCurrent hasBest should
+      = if autoRenom && enableRenom && !decide (sinceStart < interval) && (lastZero || !decide (sinceLast < interval))
+            && hasCurrent && hasBest && should
+        then [Eff.set "s.agent.lastRenominationTime" (Val.s "now"), c "renominateCandidate(best)"] else [] := by
+  unfold IceGen.controllingSelector_checkForAutomaticRenomination
+  cases autoRenom <;> cases enableRenom <;> cases (decide (sinceStart < interval)) <;> cases lastZero <;>
+    cases (decide (sinceLast < interval)) <;> cases hasCurrent <;> cases hasBest <;> cases should <;> rfl
+
+/-- … the model's `autoCheck` takes the same decisions in the same order (definitional unfolding): the gate `autoDue` is the
+conjunction of the first four tests, then the selected pair, the best pair, `shouldRenominate`; the effects are
+`lastRenomTime := now` and then `autoIssue` (= `renominateCandidate`) for the best pair's candidates -/
+theorem autoCheck_decisions (a : Agent) (now : Nat) :
+    a.autoCheck now =
+      if a.cfg.autoRenom && a.cfg.enableRenomination && !decide (now - a.selStart < a.cfg.renomInterval) &&
+          (match a.lastRenomTime with | none => true | some t => !decide (now - t < a.cfg.renomInterval)) then
+        match a.selected.bind a.pairById with
+        | none => (a, [])
+        | some cur =>
+          match a.findBest now with
+          | none => (a, [])
+          | some best =>
+            if a.shouldRenominate now cur best then
+              match a.localOf best.l, a.remoteOf best.r with
+              | some l, some r => ({ a with lastRenomTime := some now }).autoIssue now l r
+              | _, _ => ({ a with lastRenomTime := some now }, [])
+            else (a, [])
+      else (a, []) := by
+  unfold Agent.autoCheck Agent.autoDue
+  cases a.cfg.autoRenom <;> cases a.cfg.enableRenomination <;> cases (decide (now - a.selStart < a.cfg.renomInterval)) <;>
+    try rfl
+  cases a.lastRenomTime with
+  | none => rfl
+  | some t =>
+    by_cases h : now - t < a.cfg.renomInterval
+    · simp [h]
+    · simp [h]; rfl
+
+/-- **T: `Agent.shouldRenominate`** (the float64 expressions — `CurrentRoundTripTime() > 0`, the conversion of the round-trip
+time to a `time.Duration`, the comparison of the two quality scores — are parameters): never for the same pair or a candidate
+pair that has not succeeded; else relay → host/host, or both round-trip times measured and the improvement MORE than 10 ms,
+or the score test -/
+theorem shouldRenominate_tie (curNil candNil samePair : Bool) (candState : Int64) (curLocalTy curRemoteTy candLocalTy candRemoteTy : UInt8)
+    (curRTTPos candRTTPos : Bool) (curRTT candRTT : Int64) (scoreBetter : Bool) :
+    IceGen.Agent_shouldRenominate curNil candNil samePair candState curLocalTy curRemoteTy candLocalTy candRemoteTy curRTTPos
+        candRTTPos curRTT candRTT scoreBetter
+      = (!(curNil || candNil || samePair || candState != 4) &&
+          (((curLocalTy == 4 || curRemoteTy == 4) && (candLocalTy == 1 && candRemoteTy == 1)) ||
+           (curRTTPos && candRTTPos && decide (curRTT - candRTT > 10000000)) || scoreBetter)) := by
+  unfold IceGen.Agent_shouldRenominate
+  cases curNil <;> cases candNil <;> cases samePair <;> cases (candState != 4) <;> cases (curLocalTy == 4) <;>
+    cases (curRemoteTy == 4) <;> cases (candLocalTy == 1) <;> cases (candRemoteTy == 1) <;> cases curRTTPos <;>
+    cases candRTTPos <;> cases scoreBetter <;> simp
+
+open IceModel.SoftFloat in
+/-- … the model's `shouldRenominate` is the same Boolean function of the model's values (pairs always exist; pair state 4 =
+succeeded; candidate types 1 = host, 4 = relay; round-trip times as `seconds rtt`, durations as `durationOfSeconds`, the
+scores as `quality` — the float64 arithmetic of `IceModel.SoftFloat`) -/
+theorem shouldRenominate_decisions (a : Agent) (now : Nat) (cur cand : Pair) :
+    a.shouldRenominate now cur cand =
+      (!(a.pairEqual cur cand || cand.state != .succeeded) &&
+        (((a.localTy cur == 4 || a.remoteTy cur == 4) && (a.localTy cand == 1 && a.remoteTy cand == 1)) ||
+         ((seconds cur.rtt).gt F.zero && (seconds cand.rtt).gt F.zero &&
+            decide (durationOfSeconds (seconds cur.rtt) - durationOfSeconds (seconds cand.rtt) > 10000000)) ||
+         (a.quality now cand).gt ((a.quality now cur).mul c115))) := by
+  unfold Agent.shouldRenominate
+  cases (a.pairEqual cur cand || cand.state != .succeeded) <;>
+    cases ((a.localTy cur == 4 || a.remoteTy cur == 4) && (a.localTy cand == 1 && a.remoteTy cand == 1)) <;> simp
 
 /-! ## `HandleBindingRequest` -/
 
